@@ -158,3 +158,38 @@ Lemma random_gaussian_b (F : funs) : special_ok F -> forall (var : variant) (p :
   Rmax l (lower_unit_R F p) <= Rmin u (upper_unit_R F p) -> 0 <= r <= 1 ->
   exists v, random_R F var p l u r = Ok v /\ p_lo p <= v <= p_hi p.
 Proof. intro HS. unbundle F HS. apply random_gaussian_ok; assumption. Qed.
+
+Lemma random_bounded_b (F : funs) : special_ok F -> round_ok F -> forall (p : prior R) (l u r : R),
+  (p_family p = Uniform \/ (p_family p = LogUniform /\ 0 < p_lo p)) -> p_lo p < p_hi p ->
+  Rmax l (lower_unit_R F p) <= Rmin u (upper_unit_R F p) -> 0 <= r <= 1 ->
+  exists v, random_R F Repaired p l u r = Ok v /\ p_lo p <= v <= p_hi p.
+Proof. intros HS [R1 [R2 R3]]. unbundle F HS. apply random_bounded_ok; assumption. Qed.
+
+Lemma loguniform_unit_limits_b (F : funs) : special_ok F -> forall p : prior R,
+  p_family p = LogUniform -> 0 < p_lo p -> p_lo p < p_hi p -> lower_unit_R F p = Reps /\ upper_unit_R F p = 1 - Reps.
+Proof. intro HS. unbundle F HS. apply loguniform_unit_limits; assumption. Qed.
+
+Lemma random_loggaussian_b (F : funs) : special_ok F -> forall (var : variant) (p : prior R) (l u r : R),
+  p_family p = LogGaussian -> 0 < p_sigma p -> 0 < p_lo p -> p_lo p < p_hi p ->
+  Rmax l (lower_unit_R F p) <= Rmin u (upper_unit_R F p) -> 0 <= r <= 1 ->
+  exists v, random_R F var p l u r = Ok v /\ p_lo p <= v <= p_hi p.
+Proof. intro HS. unbundle F HS. apply random_loggaussian_ok; assumption. Qed.
+
+(* closed ends: only the rounding is constrained; the special functions are arbitrary except for the stated value *)
+Definition base_unit_R (F : funs) (u : R) : R := f_Phi F (normal_value_for (RAf F) (RSf F) 0 1 u).
+
+Lemma value_at_zero_uniform_b (F : funs) : round_ok F -> forall p : prior R,
+  p_family p = Uniform -> p_lo p < p_hi p -> base_unit_R F 0 = 0 ->
+  exists v, value_for_R F Repaired p false 0 = Ok v /\ p_lo p <= v <= p_hi p /\ Rabs (v - p_lo p) <= 5 / 10 ^ 15.
+Proof. intros [R1 [R2 R3]]. unfold base_unit_R. unbundle0 F. apply value_at_zero_uniform; assumption. Qed.
+
+Lemma value_at_one_uniform_b (F : funs) : round_ok F -> forall p : prior R,
+  p_family p = Uniform -> p_lo p < p_hi p -> base_unit_R F 1 = 1 ->
+  exists v, value_for_R F Repaired p false 1 = Ok v /\ p_lo p <= v <= p_hi p /\ Rabs (v - p_hi p) <= 5 / 10 ^ 15.
+Proof. intros [R1 [R2 R3]]. unfold base_unit_R. unbundle0 F. apply value_at_one_uniform; assumption. Qed.
+
+Lemma value_at_ends_loguniform_b (F : funs) : round_ok F -> forall p : prior R,
+  p_family p = LogUniform -> 0 < p_lo p -> p_lo p < p_hi p ->
+  (base_unit_R F 0 = 0 -> value_for_R F Repaired p false 0 = Ok (p_lo p)) /\
+  (base_unit_R F 1 = 1 -> value_for_R F Repaired p false 1 = Ok (p_hi p)).
+Proof. intros [R1 [R2 R3]]. unfold base_unit_R. unbundle0 F. apply value_at_ends_loguniform; assumption. Qed.
